@@ -429,8 +429,13 @@ struct Value {
             val.setTypeToUndefined();
         } else {
             if (!isArray()) {
+                // val may be a member of this value (v += Move(v["a"])): it is taken before what the value holds goes.
+                Value tmp{Memory::Move(val)};
+
                 reset();
                 setTypeToArray();
+                array_ += Memory::Move(tmp);
+                return;
             }
 
             array_ += Memory::Move(val);
@@ -442,8 +447,13 @@ struct Value {
             object_ += val.object_;
         } else {
             if (!isArray()) {
+                // val may be a member of this value (v += v["a"]): it is copied before what the value holds goes.
+                Value tmp{val};
+
                 reset();
                 setTypeToArray();
+                array_ += Memory::Move(tmp);
+                return;
             }
 
             array_ += val;
